@@ -892,7 +892,7 @@ fn pinned_address_order() -> CaseOutcome {
 
 pub fn spec(tier: &str) -> Spec {
     let mut s = Spec::new("C12", tier, 1_500, 15_000, 900);
-    s.rule = "per case 1-3 generated files (valid and single-fault) x 1-3 trees. (a) every text is loaded twice (equal AST) and a rejected text whose diagnostic involves hash-ordered collections six times (one diagnostic); (b) the isolated result of every (file, tree, mode) is computed twice on fresh threads with freshly loaded files and must be identical in every observable form (pretty_print text, JSON value, observed graph incl. node numbering, or error text plain and pretty); (c) a history of 4-9 executions on the long-lived worker thread with the files loaded once - mixed files, trees and modes, a fifth of them cancelled at a random poll - where every result, cancelled or not, must equal the isolated one, then 8 concurrent threads sharing one &File, each equal to the isolated result; the caller's Variables are compared before / after every execution. (e) eleven fixed probes (incl. one file executed with different caller globals in turn, and 8 threads x 6 executions of a file with three `replace` calls): a diagnostic does not depend on the texts the thread loaded before; executions started from a caller-supplied function or from a match visitor (re-entrancy, strict / lazy inside strict / lazy) equal the isolated run; a function re-registered by the caller between executions is the one called. (d) 3 (quick) / 8 (thorough) child processes given the same seed must print identical transcripts (observed graphs, pretty output, error texts). evaluations = executions. Non-trivial: >=2 trees, >=2 successful isolated results, a graph with >=2 attributes. Distinct = fingerprint of (files, sources).".into();
+    s.rule = "per case 1-3 generated files (valid and single-fault) x 1-3 trees. (a) every text is loaded twice (equal AST) and a rejected text whose diagnostic involves hash-ordered collections six times (one diagnostic); (b) the isolated result of every (file, tree, mode) is computed twice on fresh threads with freshly loaded files and must be identical in every observable form (pretty_print text, JSON value, observed graph incl. node numbering, or error text plain and pretty); (c) a history of 4-9 executions on the long-lived worker thread with the files loaded once - mixed files, trees and modes, a fifth of them cancelled at a random poll - where every result, cancelled or not, must equal the isolated one, then 8 concurrent threads sharing one &File, each equal to the isolated result; the caller's Variables are compared before / after every execution. a third of the history steps run on a fresh parse of the source that is dropped afterwards (compared by observed graph: node ids in the JSON form are addresses). (e) nineteen fixed probes (incl. one file executed with different caller globals in turn, 8 threads x 6 executions of a file with three `replace` calls, debug attributes of two files that share statement positions, named-child-index over short-lived trees against tree-sitter's own positions, File::try_visit_matches in both modes on one loaded file, a failing wildcard-root stanza over four trees): a diagnostic does not depend on the texts the thread loaded before; executions started from a caller-supplied function or from a match visitor (re-entrancy, strict / lazy inside strict / lazy) equal the isolated run; a function re-registered by the caller between executions is the one called. (d) 3 (quick) / 8 (thorough) child processes given the same seed must print identical transcripts (observed graphs, pretty output, error texts). evaluations = executions. Non-trivial: >=2 trees, >=2 successful isolated results, a graph with >=2 attributes. Distinct = fingerprint of (files, sources).".into();
     s.assumptions = vec![
         "thread interleavings are whatever the OS produces (all state is call-local; this part is a smoke check)".into(),
         "JSON syntax-node ids are per-parse handles: compared within one process on one Tree only".into(),
